@@ -11,13 +11,60 @@ Ties:
 import itertools
 import json
 import os
+import re
 from collections import Counter
 
 import common
-from common import BuildError, REPO, cxx_build, drv, first_diff, log, sh
+from common import BuildError, REPO, cxx_build, drv, first_diff, gen_write, log, sh
+
+HDR = os.path.join(REPO, "include/oneapi/tbb/concurrent_priority_queue.h")
 
 STUBS = "harness/common/r1_stubs.cpp"
 PURE_FLAGS = ["-O1", "-g", "-fno-access-control", "-fsanitize=address,undefined", "-fno-sanitize-recover=all"]
+
+
+# ---------------------------------------------------------------------------------------------
+# E-GEN: is the element assignment of a pop inside a try block?  (regenerated from the source on every run)
+# ---------------------------------------------------------------------------------------------
+def translate_pop_guard():
+    """(guarded?, [per occurrence: inside a try block?]) for every assignment `*(<op>->elem) = ...` to a pop's result element in
+    concurrent_priority_queue.h (in the pinned tree: three, all in handle_operations, none inside a try block)"""
+    src = open(HDR).read()
+    m = re.search(r"class\s+concurrent_priority_queue\s*\{", src)
+    if not m:
+        raise ValueError("class concurrent_priority_queue not found")
+    body = src[m.end():]
+    body = re.sub(r"//[^\n]*", "", body)
+    body = re.sub(r"/\*.*?\*/", "", body, flags=re.S)
+    body = re.sub(r"^\s*#[^\n]*$", "", body, flags=re.M)
+    stack, occ = [], []
+    for t in re.finditer(r"\*\s*\(\s*\w+\s*->\s*elem\s*\)\s*=(?!=)|[{}]", body):
+        if t.group(0) == "{":
+            stack.append(bool(re.search(r"\btry\s*$", body[:t.start()])))
+        elif t.group(0) == "}":
+            if not stack:
+                break
+            stack.pop()
+        else:
+            occ.append(any(stack))
+    if not occ:
+        raise ValueError("no `*(op->elem) = ...` assignment found")
+    if all(occ) != any(occ):
+        raise ValueError("only some of the pop assignments are inside a try block: %s" % occ)
+    return all(occ), occ
+
+
+def gen(ck):
+    try:
+        g, occ = translate_pop_guard()
+        ck.oblige("gen:popAssignGuarded-translated", "generated", True, "pop element assignments inside a try block: %s" % occ)
+    except (ValueError, OSError) as e:
+        ck.oblige("gen:popAssignGuarded-translated", "generated", False, "translator cannot read handle_operations: %s" % e)
+        g = False
+    ck.extra["generated_constants"] = {"popAssignGuarded": g}
+    gen_write("C13", "/-- is every `*(tmp->elem) = std::move(...)` of handle_operations inside a try block whose handler stores FAILED? -/\n"
+                     "def popAssignGuarded : Bool := %s\n" % ("true" if g else "false"))
+    return g
 
 
 # ---------------------------------------------------------------------------------------------
@@ -139,7 +186,14 @@ def monitor_case(line, out, heap_valid=True):
             return "batch %d: %d results for %d ops" % (b, len(res), len(ops))
         evs, pushed, popped = [], [], []
         for o, r in zip(ops, res):
-            if o == "o":
+            if o == "x":
+                if r == "E":
+                    evs.append(("push", 0, False))      # no effect: the exception went to this pop's caller
+                elif r == "F":
+                    evs.append(("pop", None))
+                else:
+                    return "batch %d: pop whose element assignment throws has status %s" % (b, r)
+            elif o == "o":
                 if r == "F":
                     evs.append(("pop", None))
                 elif r.startswith("S:"):
@@ -326,11 +380,11 @@ def shrink_case(exe, line, failing):
                 yield heap, batches[:bi] + batches[bi + 1:]
         for k in range(len(heap)):
             yield heap_of(heap[:k] + heap[k + 1:]), batches
-        vals = sorted({x for x in heap} | {int(o[1:]) for b in batches for o in b if o != "o"})
+        vals = sorted({x for x in heap} | {int(o[1:]) for b in batches for o in b if o not in ("o", "x")})
         rank = {v: i for i, v in enumerate(vals)}
         if vals and vals != list(range(len(vals))):
             yield heap_of([rank[x] for x in heap]) if not is_heap([rank[x] for x in heap]) else [rank[x] for x in heap], \
-                [[o if o == "o" else o[0] + str(rank[int(o[1:])]) for o in b] for b in batches]
+                [[o if o in ("o", "x") else o[0] + str(rank[int(o[1:])]) for o in b] for b in batches]
 
     for _ in range(200):
         cs = list(cands(*best))
@@ -363,7 +417,7 @@ def run_pure(ck):
     groups = {}
     groups["exhaustive-small"] = exhaustive_cases([0, 1, 2], 3, 4, 3) if quick else \
         exhaustive_cases([0, 1, 2], 3, 4, 3) + exhaustive_cases([0, 1, 2, 3], 4, 3, 2)
-    groups["random"] = [random_case(rng) for _ in range(2500 if quick else 120000)]
+    groups["random"] = [random_case(rng) for _ in range(6000 if quick else 120000)]
     fams = [throw_family(rng) for _ in range(250 if quick else 8000)]
     groups["throw-at-every-position"] = [l for f in fams for l in f]
     groups["arbitrary-data"] = []
@@ -424,6 +478,39 @@ def run_pure(ck):
         if i < len(lines):
             ck.sample({"input": lines[i], "impl": impl[i], "model": model[i] if i < len(model) else None})
 
+    # --- pops whose element assignment throws (`x`): the model follows the code AS WRITTEN (generated flag) -----
+    xl = []
+    for _ in range(300 if quick else 6000):
+        vmax = rng.choice([2, 5, 20])
+        heap = heap_of([rng.randrange(vmax + 1) for _ in range(rng.randrange(0, 7))], rng)
+        b = random_batch(rng, rng.randrange(1, 7), rng.choice(["mixed", "pop-heavy"]), vmax)
+        for _ in range(rng.choice([1, 1, 2])):
+            b.insert(rng.randrange(len(b) + 1), "x")
+        xl.append(case_line(heap, [b, drain(len(heap) + len(b))]))
+    xi = [o.rstrip() for o in run_impl(exe, xl)]
+    xm = [m.rstrip() for m in drv("c13", "\n".join(xl) + "\n")]
+    ck.count(len(xl))
+    ck.extra["pure_input_distribution"]["pop-assignment-throws"] = len(xl)
+    dx = first_diff(xi, xm)
+    ck.oblige("corr:handle_operations with a throwing pop assignment == model of the code as written (escaped exception, unset statuses)", "correspondence",
+              dx is None, "" if dx is None else describe(xl[dx], xi[dx] if dx < len(xi) else None, xm[dx] if dx < len(xm) else None))
+    xbad = [(l, o if o.startswith("CRASH") else monitor_case(l, o)) for l, o in zip(xl, xi)]
+    xbad = [(l, w) for l, w in xbad if w]
+    ck.extra["pure_pop_assignment_throw_violations"] = len(xbad)
+    if xbad:
+        l, w = min(xbad, key=lambda x: len(x[0]))
+        small = shrink_case(exe, l, lambda a, o: o.rstrip().startswith("CRASH") or monitor_case(a, o.rstrip()) is not None)
+        out = run_impl(exe, [small])[0].rstrip()
+        ck.oblige("monitor:a throwing pop assignment fails only its own op (white-box handle_operations)", "correspondence", False,
+                  "%d of %d cases; smallest: `%s` -> `%s`" % (len(xbad), len(xl), small, out))
+        if any(p == "C13" and k == ASSIGN_KEY for (p, k, t) in common.known_findings()):
+            ck.obligations[-1]["explained"] = True
+        ck.counterexample(ASSIGN_KEY, "handle_operations on `%s` -> `%s`: the exception of the pop's element assignment escapes handle_operations; "
+                          "operations without status: %s" % (small, out, [i for i, r in enumerate(parse_out(out)[0][0]) if r == "W"] if parse_out(out) else "?"),
+                          {"engine": "E-PURE", "harness": "harness/c13/pure.cpp", "stdin": small, "observed": out, "model": drv("c13", small + "\n")[0]})
+    else:
+        ck.oblige("monitor:a throwing pop assignment fails only its own op (white-box handle_operations)", "correspondence", True)
+
     # --- failing-input search ---------------------------------------------------------------
     def failing(l, o):
         o = o.rstrip()
@@ -469,6 +556,14 @@ def scen_text(init, ths, sched):
     return "init " + " ".join(map(str, init)) + "\n" + "".join("thread " + " ".join(o) + "\n" for o in ths) + "sched " + sched + "\n"
 
 
+def trim_sched(sched):
+    """drop the trailing repetition of one thread (ReplaySchedule continues non-preemptively after its end)"""
+    s = list(sched)
+    while len(s) > 40 and s[-1] == s[-2] == s[-3]:
+        s.pop()
+    return s
+
+
 def parse_runs(out):
     """stdout of harness/c13/shim.cpp -> list of runs {log:[('ev',fields)|('note',tid,tag,seq)], ops, sched, deadlock, final}"""
     runs, cur = [], None
@@ -485,14 +580,20 @@ def parse_runs(out):
             cur["log"].append(("ev", w[1:]))
         elif w[0] == "note":
             cur["log"].append(("note", int(w[1]), w[2], int(w[3])))
+        elif w[0] == "op" and len(w) < 7:
+            cur["complete"] = False          # truncated line: the harness died while printing
+            cur = None
         elif w[0] == "op":
-            cur["ops"].append({"tid": int(w[1]), "seq": int(w[2]), "op": w[3], "res": w[4], "begin": int(w[5]), "end": int(w[6])})
+            cur["ops"].append({"tid": int(w[1]), "seq": int(w[2]), "op": w[3], "res": w[4], "begin": int(w[5]), "end": int(w[6]),
+                               "cls": int(w[7]) if len(w) > 7 else 0})
         elif w[0] == "sched":
-            cur["sched"] = [int(x) for x in w[1:]]
+            cur["sched"] = trim_sched([int(x) for x in w[1:]])
         elif w[0] == "deadlock":
             cur["deadlock"] = (w[1] == "1", w[2:])
         elif w[0] == "final":
             cur["final"] = [int(x) for x in w[1:]]
+        elif w[0] == "locked":
+            cur["locked"] = True
         elif w[0] == "end":
             cur["complete"] = True
     return runs
@@ -562,6 +663,9 @@ def shim_monitor(init, run):
         return "deadlock: every live thread parked (threads %s) - lost hand-off" % " ".join(run["deadlock"][1])
     if not run["complete"]:
         return "run did not complete"
+    if run.get("locked"):
+        return "deadlock: handler_busy is still set after all threads finished - every later operation on the queue spins forever; results: " + \
+            " ".join("T%d:%s->%s" % (o["tid"], o["op"], o["res"]) for o in run["ops"])
     ops = run["ops"]
     # results: statuses and exception routing
     pushed, popped = [], []
@@ -570,6 +674,10 @@ def shim_monitor(init, run):
             return "operation %s of thread %d never returned" % (o["op"], o["tid"])
         if o["res"] == "X":
             return "a foreign exception reached the caller of %s (thread %d)" % (o["op"], o["tid"])
+        if o["op"] == "x":
+            if o["res"] != "E":
+                return "try_pop whose element assignment throws returned %s instead of propagating the exception to its own caller" % o["res"]
+            continue
         if o["op"][0] == "t" and o["res"] != "F":
             return "push whose copy throws returned %s to its caller" % o["res"]
         if o["op"][0] in "pm":
@@ -583,7 +691,7 @@ def shim_monitor(init, run):
             popped.append(v)
     if Counter(run["final"]) + Counter(popped) != Counter(init) + Counter(pushed):
         return "elements lost/duplicated: initial %s + pushed %s != remaining %s + popped %s" % (sorted(init), sorted(pushed), sorted(run["final"]), sorted(popped))
-    if len(ops) <= 14 and not history_linearizable(init, ops):
+    if len(ops) <= 14 and not history_linearizable(init, [o for o in ops if o["op"] != "x"]):
         return "history is not linearizable w.r.t. the priority-queue spec: " + " ".join("T%d:%s->%s[%d,%d]" % (o["tid"], o["op"], o["res"], o["begin"], o["end"]) for o in ops)
     # batch structure from the atomic-level log
     nx, curop, submitted, grabbed, statused, ended = {}, {}, set(), set(), set(), set()
@@ -611,7 +719,7 @@ def shim_monitor(init, run):
             while p != "0" and guard < 100:
                 if not p.startswith("op"):
                     return "pending list contains a non-operation pointer %s" % p
-                u = int(p[2:])
+                u = int(p[2:].split(".")[0])
                 members.append(u)
                 p = nx.get(str(u), "0")
                 guard += 1
@@ -643,21 +751,39 @@ def shim_monitor(init, run):
     return None
 
 
+STRUCTURAL = ("thread %d grabs a batch while", "batch of thread", "an operation occurs twice", "stores the status of thread", "status of thread",
+              "handler_busy released", "pending list contains", "was never in a batch", "returned from operation")
+
+
+def severity(why):
+    """2 = the property itself is violated on this run (wrong result / lost element / hang / leaked exception / memory error),
+    1 = only the batch discipline is violated (handlers overlap, status outside a batch, ...)"""
+    w = why.replace("%d", "")
+    for p in STRUCTURAL:
+        q = p.replace("%d", "")
+        if q.split()[0] in why and all(tok in why for tok in q.split() if not tok.startswith("%")):
+            return 1
+    return 2
+
+
 def shim_model_replay(init, ths, run):
     """feed the schedule of atomic accesses to the Lean `Agg` model; returns None or the first difference"""
     acc = accesses(run)
-    ml = ["init " + " ".join(map(str, init))] + ["thread " + " ".join(o) for o in ths] + ["s " + a.split()[0] for a in acc] + ["results", "final"]
+    cls = {(o["tid"], o["seq"]): o["cls"] for o in run["ops"]}
+    ml = ["init " + " ".join(map(str, init))] + ["thread " + " ".join("%s@%d" % (o, cls.get((t, k), 0)) for k, o in enumerate(ops)) for t, ops in enumerate(ths)] \
+        + ["s " + a.split()[0] for a in acc] + ["results", "final"]
     mo = drv("c13agg", "\n".join(ml) + "\n")
     pre = 1 + len(ths)
     d = first_diff(acc, mo[pre:pre + len(acc)])
     if d is not None:
         return "access %d: implementation `%s`, model `%s`" % (d, acc[d] if d < len(acc) else None, mo[pre + d] if pre + d < len(mo) - 2 else None)
-    res = " | ".join(" ".join(o["res"] for o in run["ops"] if o["tid"] == t) for t in range(len(ths)))
-    if res != mo[-2].strip():
+    res = " | ".join(" ".join(o["res"] for o in run["ops"] if o["tid"] == t and o["res"] != "W") for t in range(len(ths)))
+    if [x.strip() for x in res.split("|")] != [x.strip() for x in mo[-2].split("|")]:
         return "results: implementation `%s`, model `%s`" % (res, mo[-2])
-    fin = sorted(int(x) for x in mo[-1].split("|")[1].split())
-    if fin != sorted(run["final"]):
-        return "final contents: implementation %s, model %s" % (sorted(run["final"]), fin)
+    if run["final"] is not None:
+        fin = sorted(int(x) for x in mo[-1].split("|")[1].split())
+        if fin != sorted(run["final"]):
+            return "final contents: implementation %s, model %s" % (sorted(run["final"]), fin)
     return None
 
 
@@ -693,12 +819,12 @@ def run_shim(ck):
         nruns += 1
         why = shim_monitor(init, run)
         if why:
-            bad_mon.append((init, ths, run["sched"], why))
+            bad_mon.append((init, ths, "replay " + " ".join(map(str, run["sched"])), why))
             return
         if check_model:
             d = shim_model_replay(init, ths, run)
             if d:
-                bad_corr.append((init, ths, run["sched"], d))
+                bad_corr.append((init, ths, "replay " + " ".join(map(str, run["sched"])), d))
             else:
                 ck.traces_validated += 1
         nb = sum(1 for e in run["log"] if e[0] == "ev" and e[1][1] == "xchg")
@@ -706,30 +832,35 @@ def run_shim(ck):
         dist[(len(ths), "batches=%d" % nb)] += 1
 
     # random schedules on random scenarios (several seeds and two preemption densities per scenario)
-    for _ in range(60 if quick else 1500):
+    for _ in range(150 if quick else 1500):
+        if len(bad_mon) > 25:
+            break                    # badly broken tree: enough material for the failing-input search
         init, ths = random_scenario(rng)
         for stay in (96, 200):
-            rc, runs, err = run_scenario(exe, init, ths, "randoms %d %d %d" % (rng.randrange(1, 1 << 30), 4 if quick else 8, stay))
+            seed0 = rng.randrange(1, 1 << 30)
+            rc, runs, err = run_scenario(exe, init, ths, "randoms %d %d %d" % (seed0, 4 if quick else 8, stay))
             for run in runs:
                 examine(init, ths, run)
             if rc not in (0, 3):
-                bad_mon.append((init, ths, [], "harness crashed rc=%d %s" % (rc, err[-300:])))
+                bad_mon.append((init, ths, "random %d %d" % (seed0 + len(runs), stay), "harness crashed (memory error) rc=%d %s" % (rc, err.strip()[-200:])))
     # bounded-preemption DFS on small scenarios
-    for _ in range(6 if quick else 60):
+    for _ in range(12 if quick else 60):
+        if len(bad_mon) > 25:
+            break
         init, ths = random_scenario(rng, small=True)
-        rc, runs, err = run_scenario(exe, init, ths, "dfs 2 %d" % (250 if quick else 3000), timeout=900)
+        rc, runs, err = run_scenario(exe, init, ths, "dfs 2 %d" % (300 if quick else 3000), timeout=900)
         for i, run in enumerate(runs):
             examine(init, ths, run, check_model=(i % 10 == 0))
         if rc not in (0, 3):
-            bad_mon.append((init, ths, [], "harness crashed rc=%d %s" % (rc, err[-300:])))
+            bad_mon.append((init, ths, "dfs 2 %d" % (len(runs) + 1), "harness crashed (memory error) rc=%d %s" % (rc, err.strip()[-200:])))
     ck.extra["shim_runs"] = nruns
     ck.extra["shim_distribution"] = {"%d threads %s" % k: v for k, v in sorted(dist.items())}
     ck.oblige("corr:aggregator+handler trace replays against the Lean `Agg` model (every atomic access, value, result, final contents)",
-              "correspondence", not bad_corr, [(scen_text(i, t, "replay " + " ".join(map(str, s))), d) for i, t, s, d in bad_corr[:1]])
+              "correspondence", not bad_corr, [(scen_text(i, t, s), d) for i, t, s, d in bad_corr[:1]])
     ck.oblige("monitor:handlers mutually exclusive, each op in exactly one batch with one status, linearizable history, no lost element, exceptions only to their caller (E-SHIM)",
-              "correspondence", not bad_mon, [(scen_text(i, t, "replay " + " ".join(map(str, s))), d) for i, t, s, d in bad_mon[:1]])
+              "correspondence", not bad_mon, [(scen_text(i, t, s), d) for i, t, s, d in bad_mon[:1]])
     if bad_mon:
-        init, ths, sched, why = min(bad_mon, key=lambda b: (sum(map(len, b[1])), len(b[2])))
+        init, ths, sched, why = min(bad_mon, key=lambda b: (-severity(b[3]), sum(map(len, b[1])), len(b[2])))
         ck.sample({"scenario": ths, "init": init, "violation": why})
     else:
         init, ths = random_scenario(rng)
@@ -739,36 +870,47 @@ def run_shim(ck):
 
     # --- failing-input search ---------------------------------------------------------------
     found = bad_mon[:]
-    if bad_corr and not found:
-        log("aggregator trace no longer replays; searching schedules for a property violation")
-        t0 = len(found)
-        for k in range(400 if quick else 4000):
-            init, ths = random_scenario(rng, small=(k % 2 == 0))
-            rc, runs, err = run_scenario(exe, init, ths, ("dfs 2 400" if k % 8 == 0 else "randoms %d 6 %d" % (rng.randrange(1, 1 << 30), rng.choice([60, 120, 220]))), timeout=600)
+    if (bad_corr or found) and not any(severity(f[3]) == 2 for f in found):
+        log("aggregator correspondence/batch discipline broken; searching schedules for a run on which the property itself fails")
+        for k in range(300 if quick else 3000):
+            init, ths = random_scenario(rng, small=(k % 3 == 0))
+            seed0 = rng.randrange(1, 1 << 30)
+            stay = rng.choice([60, 120, 220])
+            spec = "dfs 2 400" if k % 8 == 0 else "randoms %d 6 %d" % (seed0, stay)
+            rc, runs, err = run_scenario(exe, init, ths, spec, timeout=600)
+            ck.count(len(runs))
             for run in runs:
                 why = shim_monitor(init, run)
                 if why:
-                    found.append((init, ths, run["sched"], why))
-            if len(found) > t0 + 2:
+                    found.append((init, ths, "replay " + " ".join(map(str, run["sched"])), why))
+            if rc not in (0, 3) and not spec.startswith("dfs"):
+                found.append((init, ths, "random %d %d" % (seed0 + len(runs), stay), "harness crashed (memory error) rc=%d %s" % (rc, err.strip()[-200:])))
+            if sum(1 for f in found if severity(f[3]) == 2 and "crashed" not in f[3]) >= 2:
                 break
     if found:
-        init, ths, sched, why = min(found, key=lambda b: (sum(map(len, b[1])), len(b[2])))
-        init, ths, sched, why = shrink_scenario(exe, init, ths, sched, why, rng)
-        text = scen_text(init, ths, "replay " + " ".join(map(str, sched)))
+        def rank(b):
+            return (-severity(b[3]), "crashed" in b[3], sum(map(len, b[1])), len(b[2]))
+        init, ths, sched, why = min(found, key=rank)
+        if "crashed" not in why:
+            init, ths, sched, why = shrink_scenario(exe, init, ths, sched, why, rng)
+        text = scen_text(init, ths, sched)
         key = "shim:" + "/".join(",".join(o) for o in ths) + ":" + why.split(":")[0].split("(")[0].strip().replace(" ", "-")[:60]
-        ck.counterexample(key, "threads %s on initial contents %s under schedule %s: %s" % (ths, init, sched, why),
-                          {"engine": "E-SHIM", "harness": "harness/c13/shim.cpp", "stdin": text, "violation": why, "init": init})
+        ck.counterexample(key, "threads %s on initial contents %s under schedule `%s`: %s" % (ths, init, sched, why),
+                          {"engine": "E-SHIM", "harness": "harness/c13/shim.cpp", "stdin": text, "violation": why, "init": init,
+                           "property_level": severity(why) == 2})
 
 
 def shrink_scenario(exe, init, ths, sched, why, rng):
     """greedy: drop operations / initial elements while some schedule (DFS bound 2 + random seeds) still violates"""
+    sev = severity(why)
+
     def search(init, ths):
         for schedspec in ("dfs 2 1500", "randoms %d 40 96" % rng.randrange(1, 1 << 30), "randoms %d 40 200" % rng.randrange(1, 1 << 30)):
             rc, runs, err = run_scenario(exe, init, ths, schedspec, timeout=600)
             for run in runs:
                 w = shim_monitor(init, run)
-                if w:
-                    return run["sched"], w
+                if w and severity(w) >= sev:
+                    return "replay " + " ".join(map(str, run["sched"])), w
         return None
     improved = True
     while improved:
@@ -793,24 +935,85 @@ def shrink_scenario(exe, init, ths, sched, why, rng):
 
 
 # ---------------------------------------------------------------------------------------------
+# probe: an exception thrown by the element's (move) assignment inside try_pop  -- NOT covered by the model
+# ---------------------------------------------------------------------------------------------
+ASSIGN_KEY = "pop-assignment-throw-locks-queue"
+
+
+def run_assign_throw_probe(ck):
+    exe = shim_exe()
+    cases = [([5, 2], [["x"], ["p3"]], "dfs 2 300"), ([5], [["x", "p1"]], "replay 0"), ([4], [["p6"], ["x"], ["o"]], "randoms 11 20 96"),
+             ([5], [["x"]], "replay 0"), ([3], [["p1"], ["x"]], "randoms 5 20 200"), ([], [["m2", "x"], ["o"]], "randoms 9 20 96"),
+             ([7, 1], [["x", "o"], ["x"]], "randoms 21 20 96")]
+    viol, corr_bad, nrep = None, [], 0
+    for init, ths, spec in cases:
+        rc, runs, err = run_scenario(exe, init, ths, spec, timeout=300)
+        for run in runs:
+            why = shim_monitor(init, run)
+            if why and viol is None:
+                viol = (init, ths, "replay " + " ".join(map(str, run["sched"])), why)
+            d = shim_model_replay(init, ths, run)      # the model follows the code as written, escaped exception included
+            nrep += 1
+            if d:
+                corr_bad.append((scen_text(init, ths, "replay " + " ".join(map(str, run["sched"]))), d))
+        if rc not in (0, 3) and viol is None:
+            viol = (init, ths, spec, "harness terminated rc=%d %s" % (rc, err.strip()[-200:]))
+    ck.count(nrep)
+    ck.oblige("corr:aggregator trace with a throwing pop assignment replays against the model of the code as written", "correspondence",
+              not corr_bad, corr_bad[:1])
+    ck.extra["assign_throw_probe"] = "no violation" if viol is None else {"init": viol[0], "threads": viol[1], "sched": viol[2], "observed": viol[3]}
+    name = "monitor:an exception from the element's assignment inside try_pop reaches only that caller, queue stays usable"
+    if viol is None:
+        ck.oblige(name, "correspondence", True)
+        return
+    what = ("try_pop whose element move/copy ASSIGNMENT throws (`x`): threads %s on contents %s under `%s`: %s  [the assignment in handle_operations is "
+            "outside any try block: the exception unwinds through the handler thread, handler_busy stays 1 and the rest of the batch never gets a status; "
+            "Lean: cpq_pop_throw_not_isolated / aggregator_pop_throw_witness]" % (viol[1], viol[0], viol[2][:200], viol[3]))
+    ck.oblige(name, "correspondence", False, what)
+    if any(p == "C13" and k == ASSIGN_KEY for (p, k, t) in common.known_findings()):
+        ck.obligations[-1]["explained"] = True      # accounted for by the known finding below
+    ck.counterexample(ASSIGN_KEY, what, {"engine": "E-SHIM", "harness": "harness/c13/shim.cpp", "stdin": scen_text(viol[0], viol[1], viol[2]),
+                                         "violation": viol[3], "init": viol[0]})
+
+
+# ---------------------------------------------------------------------------------------------
 def run(ck):
     ck.rule = ("E-PURE: every valid heap over {0,1,2} of size<=3 x every batch of <=4 ops (thorough adds values {0..3}, heaps<=4, <=3 ops) "
                "incl. a throwing push, each followed by a drain batch; random heaps (sizes 0..31, duplicates, all-equal, strictly monotone) x 1-3 random "
                "batches (mixed/pop-heavy/push-heavy/increasing/decreasing runs, const&/rvalue/throwing pushes) + drain; a throwing push inserted at "
-               "every position of random batches; heapify/reheap on random (mark, data). distinct = (empty heap?, set of (status, op kind), final mark 0?)")
+               "every position of random batches; random batches with pops whose element assignment throws; heapify/reheap on random (mark, data). "
+               "E-SHIM: 2-4 threads x 1-3 calls (const&/rvalue/throwing push, try_pop) on 0-4 initial elements under random schedules (two preemption densities) and "
+               "bounded-preemption (2) DFS on 2-thread scenarios; every run is checked by the monitors, the atomic-level trace is replayed against the Lean Agg model. distinct = (empty heap?, set of (status, op kind), final mark 0?)")
     ck.assumptions += [
         "CpqBatch models handle_operations/heapify/reheap on (data, mark) with Nat priorities and std::less; my_size is only checked to equal data.size() after each batch",
         "a throwing element copy is modelled for push(const T&) (the only place where handle_operations catches); vector growth moves elements (noexcept move)",
-        "NOT modelled: an exception from the element's move *assignment* inside a pop (`*(tmp->elem) = std::move(data.back())` is outside any try block), allocator failure",
+        "a pop whose element ASSIGNMENT throws (`x`, Op.pop true) is modelled AS CODED: Generated/C13.lean:popAssignGuarded is regenerated from the source "
+        "(false in the pinned tree: the assignment is outside any try block, the exception leaves handle_operations in the handler thread, handler_busy stays set, "
+        "the rest of the batch gets no status); all theorems about results assume no such pop (NoThrowingPop / popThrows = false); "
+        "cpq_pop_throw_not_isolated and aggregator_pop_throw_witness are the closed negation witnesses; known finding `pop-assignment-throw-locks-queue`",
+        "NOT modelled: exceptions from element moves inside heapify/reheap (types whose move constructor/assignment can throw), allocator failure",
         "the linearization of a whole concurrent history is the concatenation of per-batch orders (cpq_batch_linearizable) in batch order, justified by "
         "aggregator_serial_exactly_once; that composition step is stated in prose (Props/C13.lean header), not as a Lean theorem over histories",
     ]
     ck.trusted += ["harness/c13/pure.cpp (hand-built operation lists, private members via -fno-access-control)",
                    "checks/c13.py monitors (brute-force batch linearizability, conservation)",
                    "correspondence is sampled/exhaustive-small (differential), not proved"]
+    import time
+    stage = {}
+    t0 = time.time()
+    gen(ck)
     ck.lean_stage()
+    stage["gen+lean (incl. waiting for the shared build lock)"] = round(time.time() - t0, 1)
+    t0 = time.time()
     run_pure(ck)
+    stage["E-PURE"] = round(time.time() - t0, 1)
+    t0 = time.time()
     run_shim(ck)
+    stage["E-SHIM"] = round(time.time() - t0, 1)
+    t0 = time.time()
+    run_assign_throw_probe(ck)
+    stage["pop-assignment-throw probe"] = round(time.time() - t0, 1)
+    ck.extra["stage_seconds"] = stage
 
 
 def replay(ck, obj):
@@ -827,7 +1030,10 @@ def replay(ck, obj):
         exe = shim_exe()
         rc, out, err = sh([exe], input=r["stdin"], timeout=300)
         runs = parse_runs(out)
-        why = shim_monitor(r.get("init", []), runs[0]) if runs else "harness produced no run (rc=%d %s)" % (rc, err[-300:])
+        if rc not in (0, 3):
+            why = "harness crashed (memory error) rc=%d %s" % (rc, err.strip()[-200:])
+        else:
+            why = shim_monitor(r.get("init", []), runs[0]) if runs else "harness produced no run (rc=%d %s)" % (rc, err[-300:])
         print("replay of %s\n%s" % (obj.get("key"), r["stdin"]))
         if runs:
             for o in runs[0]["ops"]:
